@@ -285,6 +285,53 @@ def s25():
     return mk, lambda iso: iso.rm_directory('/DIR1', udf_path='/other')
 
 
+@scenario('add_fp_udf_duplicate', ['pycdlib.PyCdlib._add_fp|num_bytes_to_add += self._add_hard_link_to_inode(ino, length, fmode, eltorito_catalog, udf_new_path=udf_path)'])
+def s2b():
+    def mk():
+        iso = base(udf='2.60')
+        iso.add_fp(fp(), 1, '/A.;1', udf_path='/a')
+        return iso
+    return mk, lambda iso: iso.add_fp(fp(), 1, '/B.;1', udf_path='/a')
+
+
+@scenario('add_fp_joliet_duplicate', ['pycdlib.PyCdlib._add_fp|num_bytes_to_add += self._add_hard_link_to_inode(ino, thislen, fmode, eltorito_catalog, joliet_new_path=joliet_path, continuation=offset > 0)'])
+def s1b():
+    def mk():
+        iso = base(joliet=3)
+        iso.add_fp(fp(), 1, '/A.;1', joliet_path='/a')
+        return iso
+    return mk, lambda iso: iso.add_fp(fp(), 1, '/B.;1', joliet_path='/a')
+
+
+@scenario('add_directory_joliet_duplicate', ['pycdlib.PyCdlib.add_directory|num_bytes_to_add += self._add_joliet_dir(self._normalize_joliet_path(joliet_path))'])
+def s4b():
+    def mk():
+        iso = base(joliet=3)
+        iso.add_directory('/DIR1', joliet_path='/dir1')
+        return iso
+    return mk, lambda iso: iso.add_directory('/DIR2', joliet_path='/dir1')
+
+
+@scenario('rm_directory_udf_is_file', ["pycdlib.PyCdlib.rm_directory|raise pycdlibexception.PyCdlibInvalidInput('Cannot remove a file with rm_directory (try rm_file instead)') (the UDF one)"])
+def s25b():
+    def mk():
+        iso = base(udf='2.60')
+        iso.add_directory('/DIR1', udf_path='/dir1')
+        iso.add_fp(fp(), 1, '/FILE.;1', udf_path='/file')
+        return iso
+    return mk, lambda iso: iso.rm_directory('/DIR1', udf_path='/file')
+
+
+@scenario('rm_directory_udf_nonempty', ['pycdlib.PyCdlib.rm_directory|num_extents_to_remove = udf_parent.remove_file_ident_desc_by_name(udf_ident.fi, self.logical_block_size)'])
+def s25c():
+    def mk():
+        iso = base(udf='2.60')
+        iso.add_directory('/DIR1', udf_path='/dir1')
+        iso.add_fp(fp(), 1, udf_path='/dir1/inner')
+        return iso
+    return mk, lambda iso: iso.rm_directory('/DIR1', udf_path='/dir1')
+
+
 @scenario('rm_directory_udf_relative', ['pycdlib.PyCdlib.rm_directory|udf_path_bytes = utils.normpath(udf_path)'])
 def s26():
     def mk():
